@@ -291,9 +291,18 @@ func (e *Eval) Dump() error {
 		fmt.Printf("\nUser-defined functions:\n")
 	}
 
-	// For each function
+	// For each function - in the order of their names, so that the
+	// same script is always shown the same way.
+	names := make([]string, 0, len(funs))
+	for name := range funs {
+		names = append(names, name)
+	}
+	sort.Strings(names)
+
 	count := 0
-	for name, obj := range funs {
+	for _, name := range names {
+		obj := funs[name]
+
 		// Show brief information
 		fmt.Printf(" function %s(%s)\n", name, strings.Join(obj.Arguments, ","))
 
